@@ -14,7 +14,7 @@ use crate::gen::*;
 use crate::refmodel::framing::{decide, Framing};
 use crate::refmodel::reqvalid::{self, ReqFacts};
 
-pub const RULE: &str = "scenarios = requests (9 methods x {1.0,1.1} x Expect {no,yes} x send-body-despite-method {no,yes} x framing header {none, content-length: 3, content-length: 0, transfer-encoding: chunked}; rejected ones are kept and must stay in SendRequest) x server behaviours (interim 100 in time / late via give-up, silent server, refusal bare 403 / 403 with fields, final status {200,204,205,300,304,404,302 with Location,302 without,307 with Location,399 with Location} x version {1.0,1.1} x body {no framing header, Content-Length: 0, Content-Length: 3, chunked}; 200/302/399 over HTTP/1.1 also with an empty-valued field ahead of all others); coarse I/O (whole message or cuts after the status line / after the head / mid-body; thorough: 1-byte arrivals too); in every state: all permitted calls incl. proceed() on a clone whether or not ready, head write after completion, finishing write after the end, reads after the end, as_new_flow with both policies (twice) followed by a complete second exchange on the new flow; successor state compared with the documented graph at every edge; every state must reach Cleanup. distinct = distinct (scenario, final observation)";
+pub const RULE: &str = "scenarios = requests (9 methods x {1.0,1.1} x Expect {no,yes} x send-body-despite-method {no,yes} x framing header {none, content-length: 3, content-length: 0, transfer-encoding: chunked}; rejected ones are kept and must stay in SendRequest) x server behaviours (interim 100 in time / late via give-up, silent server, refusal bare 403 / 403 with fields, final status {200,204,205,300,304,404,302 with Location,302 without,307 with Location,399 with Location} x version {1.0,1.1} x body {no framing header, Content-Length: 0, Content-Length: 3, chunked}; 200/302/399 over HTTP/1.1 also with an empty-valued field ahead of all others); coarse I/O (whole message or cuts after the status line / after the head / mid-body; thorough: 1-byte arrivals too); in every state: all permitted calls incl. proceed() on a clone whether or not ready, head write after completion, finishing write after the end, reads after the end, as_new_flow with both policies (twice) followed by a complete second exchange on the new flow; successor state compared with the documented graph at every edge; every state must reach Cleanup; plus repetition: as_new_flow() called four times with alternating policies at each of three hops of a redirect chain (4 methods x 3 statuses), and in 9 canonical exchanges every state's main call repeated 8 times after it has given its answer (head write, finishing / further body writes and direct-write reports, try_response, reads after the end, as_new_flow), the exchange then completed. distinct = distinct (scenario, final observation)";
 
 const METHODS: [&str; 9] = ["GET", "HEAD", "POST", "PUT", "DELETE", "CONNECT", "OPTIONS", "TRACE", "PATCH"];
 
@@ -210,6 +210,141 @@ fn check_rejected(cfg: &ReqCfg) -> Option<(String, String)> {
     }
 }
 
+/// Repetition: a call that has already given its decisive answer is made again and again (a caller
+/// loop that does not look at the readiness query), and as_new_flow() is called several times with
+/// alternating policies at every hop of a redirect chain. Nothing may panic, and the exchange /
+/// chain must still be completable afterwards.
+fn repeated_calls() -> Vec<(String, String, Value)> {
+    use crate::chain::{drive_to_redirect, Loc};
+    use ureq_proto::client::flow::RedirectAuthHeaders::{Never, SameHost};
+    let mut fails: Vec<(String, String, Value)> = Vec::new();
+    // (1) as_new_flow() up to four times per hop, three hops deep
+    for (m, cl) in [("GET", false), ("POST", true), ("HEAD", false), ("DELETE", false)] {
+        for status in [301u16, 302, 307] {
+            for first_same_host in [false, true] {
+                let label = format!("{} chain, status {}, first policy {}", m, status, if first_same_host { "SameHost" } else { "Never" });
+                let r = guarded(|| -> Result<(), String> {
+                    let mut rq = ReqCfg::new(m, "1.1", "http://a.test/p").orig("authorization", "S3CRET").orig("cookie", "k=ORIG");
+                    if cl {
+                        rq = rq.orig("content-length", "3");
+                    }
+                    let mut cur = rq.build_prepare()?;
+                    for hop in 0..3 {
+                        let body: &[u8] = if hop == 0 && cl { b"abc" } else { b"" };
+                        let mut red = drive_to_redirect(&cur, body, status, &Loc::one(["/next", "http://b.test/q", "../up"][hop]))?;
+                        let mut next = None;
+                        for k in 0..4 {
+                            let pol = if (k % 2 == 0) == first_same_host { SameHost } else { Never };
+                            if let Ok(Some(nf)) = red.as_new_flow(pol) {
+                                if next.is_none() {
+                                    next = Some(nf);
+                                }
+                            }
+                        }
+                        let _ = (red.status(), red.must_close_connection(), red.close_reason());
+                        match next {
+                            Some(nf) => cur = nf,
+                            None => break, // not followed (307 of a POST / DELETE)
+                        }
+                    }
+                    Ok(())
+                });
+                match r {
+                    Ok(Ok(())) => {}
+                    Ok(Err(e)) => fails.push(("C09:harness:repeated-follow".into(), format!("{} [{}]", e, label), json!({"kind": "repeated"}))),
+                    Err(p) => fails.push((format!("C09:repeated-calls:panic:{}", crate::engine::panic_site(&p)), format!("as_new_flow() called repeatedly along a redirect chain: {} [{}]", p, label), json!({"kind": "repeated"}))),
+                }
+            }
+        }
+    }
+    // (2) every state's main call repeated 8 times after it has given its answer, then the exchange is completed
+    for (m, expect) in [("GET", false), ("POST", false), ("POST", true)] {
+        for resp in [&b"HTTP/1.1 200 OK\r\nConnection: close\r\nContent-Length: 3\r\n\r\nabc"[..], &b"HTTP/1.0 404 Nope\r\nConnection: close\r\n\r\nbye"[..], &b"HTTP/1.1 302 Found\r\nLocation: /n\r\nConnection: close\r\nTransfer-Encoding: chunked\r\n\r\n3\r\nabc\r\n0\r\n\r\n"[..]] {
+            let label = format!("{}{} answered by {:?}", m, if expect { " + Expect" } else { "" }, crate::engine::show(&resp[..20]));
+            let r = guarded(|| -> Result<(), String> {
+                let mut rq = ReqCfg::new(m, "1.1", "http://a.test/p").orig("connection", "close");
+                if m == "POST" {
+                    rq = rq.orig("content-length", "3");
+                }
+                if expect {
+                    rq = rq.orig("expect", "100-continue");
+                }
+                let mut sr = rq.build_prepare()?.proceed();
+                let mut buf = vec![0u8; 4096];
+                crate::driver::write_whole_head(&mut sr).map_err(|e| format!("head: {}", e))?;
+                for _ in 0..8 {
+                    let _ = sr.write(&mut buf);
+                    let _ = sr.can_proceed();
+                }
+                let mut cur = AnyFlow::SendRequest(sr).proceed()?.ok_or("cannot leave SendRequest")?;
+                let mut off = 0usize;
+                for _ in 0..12 {
+                    cur = match cur {
+                        AnyFlow::Await100(mut a) => {
+                            // documented usage: look only while the flow wants to keep waiting
+                            for _ in 0..8 {
+                                if a.can_keep_await_100() {
+                                    let _ = a.try_read_100(b"HTTP/1.1 100 Continue\r\n\r\n");
+                                }
+                            }
+                            AnyFlow::Await100(a).proceed()?.ok_or("await100")?
+                        }
+                        AnyFlow::SendBody(mut b) => {
+                            let _ = b.write(b"abc", &mut buf).map_err(|e| format!("body: {:?}", e))?;
+                            for _ in 0..8 {
+                                let _ = b.write(&[], &mut buf);
+                                let _ = b.write(b"x", &mut buf);
+                                let _ = b.consume_direct_write(1);
+                            }
+                            AnyFlow::SendBody(b).proceed()?.ok_or("cannot leave SendBody after repeated finishing writes")?
+                        }
+                        AnyFlow::RecvResponse(mut f) => {
+                            let (n, r) = f.try_response(&resp[off..]).map_err(|e| format!("try_response: {:?}", e))?;
+                            if r.is_none() {
+                                return Err("response not accepted".into());
+                            }
+                            for _ in 0..8 {
+                                let _ = f.try_response(&resp[off..]);
+                                let _ = f.try_response(&resp[off + n..]);
+                            }
+                            off += n;
+                            AnyFlow::RecvResponse(f).proceed()?.ok_or("cannot leave RecvResponse after repeated try_response")?
+                        }
+                        AnyFlow::RecvBody(mut b) => {
+                            let mut out = [0u8; 64];
+                            for _ in 0..16 {
+                                let (c, _) = b.read(&resp[off..], &mut out).map_err(|e| format!("read: {:?}", e))?;
+                                off += c;
+                            }
+                            AnyFlow::RecvBody(b).proceed()?.ok_or("cannot leave RecvBody after repeated reads")?
+                        }
+                        AnyFlow::Redirect(mut r) => {
+                            for _ in 0..4 {
+                                let _ = r.as_new_flow(Never);
+                            }
+                            AnyFlow::Redirect(r).proceed()?.ok_or("redirect")?
+                        }
+                        AnyFlow::Cleanup(c) => {
+                            for _ in 0..8 {
+                                let _ = (c.must_close_connection(), c.close_reason());
+                            }
+                            return Ok(());
+                        }
+                        o => return Err(format!("unexpected state {}", o.name())),
+                    };
+                }
+                Err("exchange did not reach Cleanup".into())
+            });
+            match r {
+                Ok(Ok(())) => {}
+                Ok(Err(e)) => fails.push(("C09:repeated-calls:flow-unusable".into(), format!("after repeating calls that had already given their answer the exchange cannot be completed: {} [{}]", e, label), json!({"kind": "repeated"}))),
+                Err(p) => fails.push((format!("C09:repeated-calls:panic:{}", crate::engine::panic_site(&p)), format!("a call repeated after it had given its answer: {} [{}]", p, label), json!({"kind": "repeated"}))),
+            }
+        }
+    }
+    fails
+}
+
 pub fn run(tier: Tier) -> Report {
     let pp = prepare_panics();
     if !pp.is_empty() {
@@ -237,12 +372,20 @@ pub fn run(tier: Tier) -> Report {
         }
     }
     rep.extra("rejected_requests", json!(rejected.len()));
+    for (i, (key, what, replay)) in repeated_calls().into_iter().enumerate() {
+        rep.violation(Violation { key, ord: 5_000_000 + i as u64, what, replay });
+    }
+    rep.evaluations += 33;
+    rep.transitions += 33 * 40;
     rep
 }
 
 pub fn replay(v: &Value) -> Result<Option<String>, String> {
     if v["kind"].as_str() == Some("prepare") {
         return Ok(prepare_panics().into_iter().next().map(|(l, p)| format!("[C09:prepare:panic] {} [{}]", p, l)));
+    }
+    if v["kind"].as_str() == Some("repeated") {
+        return Ok(repeated_calls().into_iter().next().map(|(k, w, _)| format!("[{}] {}", k, w)));
     }
     if v["kind"].as_str() == Some("rejected") {
         let cfg = ReqCfg::from_json(&v["request"])?;
